@@ -111,6 +111,7 @@ class Session:
         self.history = []
 
     def _run(self, coro):
+        self.kern.ntx = 0
         st, res = self.loop.run(coro)
         if st == 'hang':
             res = ('hang', res)
